@@ -790,7 +790,26 @@ def pinned_descriptions():
                     {"s": "add_inst", "R": ["CH", "O"], "P": ["CO", "H"], "pseudo": [], "alpha": 4.4e-11, "rtype": 100, "idx": -1},
                     {"s": "add_inst", "R": ["O", "H2"], "P": ["OH", "H"], "pseudo": [], "alpha": 5.5e-11, "rtype": 100, "idx": -1},
                     dict(r4), dict(r4), {"s": "to_code", "solver": "odeint", "method": "rosenbrock4", "device": "cpu"}, dict(r4, inplace=True)]}
-    return [p1, p2, p3, p4]
+    # built without an allowed list, then narrowed through the setter (three reactions drop out, the
+    # number of partners of the surviving species changes), then rendered: must equal the network
+    # constructed with that list (the `~ctor` variant built from this description)
+    steps5 = [{"s": "new"}]
+    for i, (R, P) in enumerate([(["H", "H"], ["H2"]), (["C", "O"], ["CO"]), (["O", "H"], ["OH"]), (["OH", "H"], ["H2O"]),
+                                (["CO", "H"], ["HCO"]), (["C", "H"], ["CH"]), (["CH", "O"], ["CO", "H"]), (["CH", "H"], ["C", "H2"])]):
+        steps5.append({"s": "add_inst", "R": R, "P": P, "pseudo": [], "alpha": round((i + 1) * 1.1e-10, 13), "rtype": 100, "idx": i + 1})
+    steps5 += [{"s": "set_allowed", "names": ["H", "H2", "C", "O", "CO", "OH", "H2O", "HCO"]},
+               {"s": "render", "solver": "cvode", "method": "dense", "device": "cpu", "pattern": False},
+               {"s": "to_code", "solver": "cvode", "method": "sparse", "device": "cpu"}]
+    p5 = {"id": "pinned-narrowed-0", "family": "pinned-narrowed", "entry": "api", "name": "simproj", "files": {},
+          "net": dict(MIXED), "steps": steps5}
+    # continued from a pickle written by another interpreter, then extended with species it already has
+    p6 = {"id": "pinned-repickled-0", "family": "pinned-repickled", "entry": "api", "name": "simproj",
+          "files": {"net.kida": "\n".join(kida) + "\n"}, "net": dict(MIXED, required_species=["He"]),
+          "steps": [{"s": "new"}, {"s": "add_file", "file": "net.kida", "fmt": "kida"}, {"s": "repickle", "hashseed": 777},
+                    {"s": "add_inst", "R": ["CH", "O"], "P": ["CO", "H"], "pseudo": [], "alpha": 4.4e-11, "rtype": 100, "idx": 15},
+                    {"s": "add_str", "fmt": "kida", "line": "O          H2                     OH         H                                             3.300e-11  0.000e+00  0.000e+00 2.00e+00 0.00e+00 logn  4     10  41000  3    16 1  1\n"},
+                    {"s": "render", "solver": "cvode", "method": "sparse", "device": "cpu", "pattern": False}]}
+    return [p1, p2, p3, p4, p5, p6]
 
 
 def build_library(seed, tier):
@@ -842,8 +861,8 @@ def build_library(seed, tier):
     twins = []
     for d in lib:
         rsteps = [i for i, st in enumerate(d["steps"]) if st["s"] in RENDER_KINDS]
-        if d["entry"] == "api" and (len(rsteps) >= 2 or any(st["s"] in ("touch", "write", "enzo_patch") for st in d["steps"])) and rsteps:
-            keep = [st for i, st in enumerate(d["steps"]) if (st["s"] not in RENDER_KINDS and st["s"] not in ("touch", "write", "enzo_patch")) or i == rsteps[-1]]
+        if d["entry"] == "api" and (len(rsteps) >= 2 or any(st["s"] in ("touch", "write", "enzo_patch", "repickle") for st in d["steps"])) and rsteps:
+            keep = [st for i, st in enumerate(d["steps"]) if (st["s"] not in RENDER_KINDS and st["s"] not in ("touch", "write", "enzo_patch", "repickle")) or i == rsteps[-1]]
             twins.append(dict(d, id=d["id"] + "~last", steps=keep, twin_of=d["id"]))
     # sibling variants (solo only, like the twins above): the same script with a SECOND network
     # built from the first one's reactions and edited / rendered just before the last rendering.
@@ -898,7 +917,21 @@ def build_library(seed, tier):
             full = dict(d, id=f"{d['id']}~reuse-{e['s']}", steps=d["steps"][:r] + [dict(R), dict(e), dict(R)], solo_only=True)
             last = dict(d, id=full["id"] + "~last", steps=d["steps"][:r] + [dict(e), dict(R)], twin_of=full["id"])
             reuse += [full, last]
-    return lib + twins + sibs + reuse
+    # constructor equivalents (solo only): a network built without an allowed list and narrowed
+    # through the setter before its first rendering must render like the network CONSTRUCTED with
+    # that list (the held reactions keep their order in this case, so the sources are comparable)
+    ctor = []
+    for d in base:
+        sa = [i for i, st in enumerate(d["steps"]) if st["s"] == "set_allowed"]
+        rsteps = [i for i, st in enumerate(d["steps"]) if st["s"] in RENDER_KINDS]
+        if d["entry"] != "api" or len(sa) != 1 or not rsteps or sa[0] > rsteps[0] or d["net"].get("allowed_species"):
+            continue
+        if any(st["s"] in ("rm_idx", "add_inst", "add_str", "add_file") for st in d["steps"][sa[0]:]):
+            continue  # (later edits would be filtered differently: keep the comparison simple)
+        net2 = dict(d["net"], allowed_species=list(d["steps"][sa[0]]["names"]))
+        steps2 = [st for i, st in enumerate(d["steps"]) if i != sa[0]]
+        ctor.append(dict(d, id=d["id"] + "~ctor", net=net2, steps=steps2, twin_of=d["id"], twin_kind="constructor"))
+    return lib + twins + sibs + reuse + ctor
 
 
 RENDER_KINDS = ("render", "to_code", "cli_render", "export")
